@@ -1,4 +1,5 @@
 import PikaVerif.Lemmas.Sched2
+import PikaVerif.Model.SchedObl
 /-! Scheduler protocol model: lemmas for the end-to-end form of C02 (`Props/C02x.lean`).
 
 * step lemmas about one object: how it can leave a pending state (only by the activation exchange
@@ -161,11 +162,6 @@ theorem enter_step (s s' : St) (a o ns : Nat) (h : step s (.stsEnter a o ns) = s
   · simp at h
 
 def isServe (o : Nat) (e : Ev) : Bool := isTagged o e || isSetex o e
-
-def owStep (ow : List (Nat × Nat)) : Ev → List (Nat × Nat)
-  | .sasRetry a o => (a, o) :: ow
-  | .stsEnter a o _ => ow.erase (a, o)
-  | _ => ow
 
 def ExOk (x : Obj) (sv : Bool) (lw : W) (le : Nat) : Prop :=
   le = x.epoch → lw.st = sActive → x.w.st = sActive → (x.w.ex = lw.ex ∨ sv = true)
@@ -348,11 +344,6 @@ theorem track_step (s s' : St) (e : Ev) (sv : Bool) (ow : List (Nat × Nat)) (o 
             simp only [Prod.mk.injEq] at hc
             exact hev ⟨ns, by rw [hc.1, hc.2]⟩
           · exact List.mem_cons_of_mem _ hm
-
-/-- helpers that decided to retry and have not re-entered `set_thread_state` yet, after a log -/
-def owing : List (Nat × Nat) → List Ev → List (Nat × Nat)
-  | ow, [] => ow
-  | ow, e :: es => owing (owStep ow e) es
 
 theorem track_log (o ie0 : Nat) : ∀ (post : List Ev) (s s' : St) (sv : Bool) (ow : List (Nat × Nat)),
     Track s sv ow o ie0 → runLog step s post = some s' →
